@@ -58,3 +58,77 @@ Fixpoint run (s : fc) (ops : list op) : fc * list (option bool) :=
   | [] => (s, [])
   | o :: r => let (s1, x) := step s o in let (s2, xs) := run s1 r in (s2, x :: xs)
   end.
+
+(* ---------------------------------------------------------------------------
+   Call level: the entry points that read the clock themselves
+   (muggle_flow_ctl_check_and_update / _check_and_force_update / _get_curr_elapsed,
+   muggle_time_counter_start / _end / _interval_ns of time_counter.c, non-Windows
+   branch, and the fast_ equivalents over muggle_rdtscp).
+
+   The clock is a scenario clock: [c_next] is what the next read returns, every
+   read advances it by [c_step].  A function that reads the clock k times
+   leaves it k steps further, so the NUMBER of reads per call is part of the
+   observable result. *)
+
+Record clock := { c_next : Z; c_step : Z }.
+Definition read_clock (k : clock) : Z * clock :=
+  (c_next k, {| c_next := c_next k + c_step k; c_step := c_step k |}).
+
+(* struct timespec as clock_gettime delivers it for an absolute time in ns *)
+Record timespec := { tv_sec : Z; tv_nsec : Z }.
+Definition ts_of (abs_ns : Z) : timespec :=
+  {| tv_sec := abs_ns / 1000000000; tv_nsec := abs_ns mod 1000000000 |}.
+
+(* muggle_time_counter_interval_ns *)
+Definition interval_ns (st en : timespec) : Z :=
+  (tv_sec en - tv_sec st) * 1000000000 + tv_nsec en - tv_nsec st.
+
+(* muggle_flow_controller_t = ring + its time counter's start stamp (end_ts is a scratch value,
+   rewritten by every get_curr_elapsed before it is used) *)
+Record nsctl := { ns_fc : fc; ns_start : timespec }.
+
+(* muggle_flow_ctl_init: the arguments are rejected before the clock is touched;
+   muggle_time_counter_start reads it once *)
+Definition ns_init (k : clock) (t_sec : Z) (n : nat) (fwd_sec : Z) : option nsctl * clock :=
+  match init t_sec n fwd_sec with
+  | None => (None, k)
+  | Some s => let (a, k') := read_clock k in (Some {| ns_fc := s; ns_start := ts_of a |}, k')
+  end.
+
+(* muggle_flow_ctl_get_curr_elapsed: muggle_time_counter_end (one read) + interval_ns *)
+Definition ns_curr_elapsed (c : nsctl) (k : clock) : Z * clock :=
+  let (a, k') := read_clock k in (interval_ns (ns_start c) (ts_of a), k').
+
+Definition ns_check_and_update (c : nsctl) (k : clock) : nsctl * bool * clock :=
+  let (e, k') := ns_curr_elapsed c k in
+  let (s', b) := check_and_update (ns_fc c) e in
+  ({| ns_fc := s'; ns_start := ns_start c |}, b, k').
+
+Definition ns_check_and_force_update (c : nsctl) (k : clock) : nsctl * bool * clock :=
+  let (e, k') := ns_curr_elapsed c k in
+  let (s', b) := check_and_force_update (ns_fc c) e in
+  ({| ns_fc := s'; ns_start := ns_start c |}, b, k').
+
+(* muggle_fast_flow_controller_t: ring over ticks + start_ticks.  tick_freq is a double in the C
+   signature; (int64_t)tick_freq truncates it, [freq_int] is that integer part. *)
+Record fastctl := { ff_fc : fc; ff_start : Z }.
+
+Definition fast_init (k : clock) (freq_int : Z) (t_sec : Z) (n : nat) (fwd_sec : Z) : option fastctl * clock :=
+  match init_fast freq_int t_sec n fwd_sec with
+  | None => (None, k)
+  | Some s => let (a, k') := read_clock k in (Some {| ff_fc := s; ff_start := a |}, k')
+  end.
+
+(* muggle_fast_flow_ctl_get_curr_elapsed: (int64_t)(muggle_rdtscp() - start_ticks) *)
+Definition fast_curr_elapsed (c : fastctl) (k : clock) : Z * clock :=
+  let (a, k') := read_clock k in (a - ff_start c, k').
+
+Definition fast_check_and_update (c : fastctl) (k : clock) : fastctl * bool * clock :=
+  let (e, k') := fast_curr_elapsed c k in
+  let (s', b) := check_and_update (ff_fc c) e in
+  ({| ff_fc := s'; ff_start := ff_start c |}, b, k').
+
+Definition fast_check_and_force_update (c : fastctl) (k : clock) : fastctl * bool * clock :=
+  let (e, k') := fast_curr_elapsed c k in
+  let (s', b) := check_and_force_update (ff_fc c) e in
+  ({| ff_fc := s'; ff_start := ff_start c |}, b, k').
